@@ -278,7 +278,11 @@ MATRIX_IDENTITY: Matrix = (1, 0, 0, 1, 0, 0)
 def parse_rect(o: Any) -> Rect:
     try:
         (x0, y0, x1, y1) = o
-        return float(x0), float(y0), float(x1), float(y1)
+        rect = (float(x0), float(y0), float(x1), float(y1))
+        if not all(math.isfinite(v) for v in rect):
+            # a real of hundreds of digits is read as infinity
+            raise ValueError("not finite")
+        return rect
     except (ValueError, TypeError, OverflowError, KeyError):
         # OverflowError: an integer of hundreds of digits; KeyError: a stream
         # (iterating it looks up the key 0)
